@@ -69,6 +69,7 @@ type vrun struct {
 	tmpDirs map[string]bool
 	faultsFired map[string]int
 	parserPanics []string
+	capHit  bool
 }
 
 type emitted struct {
@@ -91,7 +92,17 @@ func (r *vrun) yield(kind string) {
 	}
 }
 
+// stepCapPanic aborts a build whose peer calls exceed the simulator's step cap
+// (the property-level bound of C14/C19): it unwinds out of the Add call.
+type stepCapPanic struct{}
+
+const buildStepCap = 20000
+
 func (r *vrun) call(site, key string) *Call {
+	if r.log.Steps > buildStepCap {
+		r.capHit = true
+		panic(stepCapPanic{})
+	}
 	r.siteN[site]++
 	c := Call{Seq: r.log.Steps + 1, Task: r.task(), Site: site, Key: key, N: r.siteN[site]}
 	for _, f := range r.sc.Faults {
